@@ -34,6 +34,7 @@ package actionlint
 //@ folded WorkflowCallEventInput.ID
 //@ folded_elems jobNode.needs also C18
 // step ids seen in a job (RuleID) are compared case-insensitively
+//@ folded_keys map[string][]RawYAMLValue also C19
 //@ folded_keys map[string]*Pos
 
 //@ func (*RuleJobNeeds).VisitJobPre
